@@ -111,6 +111,11 @@ def build_plan(choice: Choice, tier: str, family: str):
             p["quota"] += 0.5       # the parameter is a float: a fractional quota retires after ceil(quota) chunks
     else:
         p["quota"] = math.inf
+    # every call has exactly quota x workers chunks, so ALL workers retire exactly at the end of every call, and the work
+    # queue is bounded by a small integer (the stop orders of __exit__ do not fit unless workers take them)
+    p["tail_retire"] = family != "single" and p["quota"] != math.inf and d(3, "tail.retire") == 2
+    if p["tail_retire"]:
+        p["wq_max"] = [1, 0.5, 2, 1][d(4, "tail.retire.wq")]
     # join_timeout (C03 only): a retiring worker that is slow to exit must still be replaced
     p["join_timeout"] = 1 if d(6 if family == "multi" else 10, "join_timeout") == 5 else None
     # how many timeouts may expire although another task could still run (a slow machine): 0-3
@@ -139,7 +144,12 @@ def build_plan(choice: Choice, tier: str, family: str):
         else:
             n = ITEM_CHOICES[d(len(ITEM_CHOICES), "items")] if not thorough else d(41, "items")
         n = min(n, 40 if thorough else 16)
-        if c == 0 and d(24, "items.many") == 23:
+        if p["tail_retire"]:
+            chunks = int(math.ceil(p["quota"])) * p["workers"]
+            if call["chunk"] * chunks > (40 if thorough else 16):
+                call["chunk"] = 1
+            n = call["chunk"] * chunks
+        if c == 0 and d(24, "items.many") == 23 and not p["tail_retire"]:
             # a long call with single-item chunks: more chunks in flight than any small constant bound
             n = [65, 130, 260][d(3, "items.many.n")]
             call["chunk"] = 1
@@ -477,12 +487,16 @@ def ready_call(k, pool, rec):
     """until_all_ready() with its oracle input: the workers that were in procs when it was CALLED (a successor that the
     replace thread installs while the call is scanning cannot be demanded) must all have completed begin() on return."""
     snapshot = list(pool.procs)
+    # ... and so must every worker process that is already RUNNING when it is called, installed in procs or not (the
+    # pool installs a successor before it starts it, so on the original code this set adds only retired workers that
+    # have not exited yet)
+    running = [t.name for t in k.tasks if t.kind == "process" and t.role == "worker" and not t.done]
     pool.until_all_ready()
-    note_ready(k, snapshot, rec)
+    note_ready(k, snapshot, rec, running)
 
 
-def note_ready(k, procs, rec):
-    names = []
+def note_ready(k, procs, rec, running=()):
+    names = list(running)
     for p in procs:
         if p._popen is not None:
             names.append(p._popen.task_name)
